@@ -154,9 +154,14 @@ def run_trace(task):
     """-> {"lines": [...], "cats": {line number (1-based within the trace, hdr = 1): {category: [msg]}}}"""
     rng = random.Random(task["seed"])
     locs, versions = tuple(task["locs"]), tuple(task["versions"])
-    s = session.Session(task["level"], task["fs"], task["seed"], locs=locs, versions=versions, storage_options=True)
-    d = Driver(rng, locs, versions, task.get("profile"))
     lines, cats, hist = [], {}, []
+    try:
+        s = session.Session(task["level"], task["fs"], task["seed"], locs=locs, versions=versions, storage_options=True)
+    except checklib.Machinery as e:
+        if "reference child failed" not in str(e):
+            raise
+        return {"task": {k: task[k] for k in ("level", "fs", "seed", "steps")}, "lines": [], "cats": {}, "hist": [], "broken": str(e)[-300:]}
+    d = Driver(rng, locs, versions, task.get("profile"))
     try:
         for k in range(task["steps"]):
             op = d.next_op()
@@ -233,6 +238,11 @@ def validate(chk, results, own, path):
     if len(verdicts) != len(results):
         raise checklib.Machinery(f"Trace_Alos2: {len(verdicts)} verdicts for {len(results)} traces\n" + r.out[-1500:])
     drift, others = 0, {}
+    resyncs = [(int(a), int(b)) for a, b in re.findall(r'<<"RESYNC", (\d+), (\d+)>>', r.out)]
+    for tid_, line_ in resyncs[:3]:
+        k_ = line_ - start[tid_]
+        ev_ = results[tid_ - 1]["lines"][k_ - 2]
+        chk.note(f"DRIFT detail: trace {tid_} step {k_ - 1} {ev_['e']} {({k: v for k, v in ev_.items() if k not in ('cells',)})} -> observed cells {ev_.get('cells')}; previous steps {results[tid_ - 1]['hist'][max(0, k_ - 6):k_ - 2]}"[:900])
     for tid, (st, bads, nd) in verdicts.items():
         res = results[tid - 1]
         drift += nd
@@ -263,6 +273,12 @@ def run(chk, n_traces, steps, own, profile=None, locs=("P", "Q"), versions=(0, 1
     tasks = [dict(level=("1.5", "1.1")[i % 2], fs=fss[i % len(fss)], seed=chk.seed * 7919 + 100 + i, steps=steps, locs=list(locs), versions=list(versions),
                   profile=profile) for i in range(n_traces)]
     results = checklib.pmap(run_trace, tasks, chk.scratch)
+    for r_ in results:
+        if r_.get("broken") and "spurious_error" in own:
+            chk.violation("session-trace:spurious_error", "an intact product could not be opened in a fresh process: " + r_["broken"], {"task": r_["task"]})
+    results = [r_ for r_ in results if not r_.get("broken")]
+    if not results:
+        return [], {}
     verdicts, drift, others = validate(chk, results, own, os.path.join(chk.scratch, f"alos2_{chk.pid}.ndjson"))
     chk.traces(len(results))
     chk.count(sum(len(r["lines"]) for r in results))
